@@ -1,4 +1,5 @@
 import Driver.Util
 import Driver.SemDrv
 import Driver.IqDrv
+import Driver.BulkDrv
 import Driver.Main
